@@ -79,7 +79,7 @@ def gen_cases(tier, seed):
         must = [c for c in prc if c['ending'][0] in ('return-unpicklable', 'os-exit', 'no-target')]
         rare = [c for c in sig if c['ending'][1] not in ('SIGTERM', 'SIGKILL', 'SIGSEGV', 'SIGABRT', 'SIGINT')]
         usual = [c for c in prc if c['ending'][0] not in ('return-unpicklable', 'os-exit', 'no-target')]
-        cases = thr + usual[:70] + must[:6] + [c for c in must if c['ending'][0] == 'no-target'] + [c for c in sig if c not in rare][:34] + rare[:12]
+        cases = thr + usual[:70] + must[:6] + [c for c in must[6:] if c['ending'][0] == 'no-target'] + [c for c in sig if c not in rare][:34] + rare[:12]
     else:
         cases = thr + prc + sig
     rng.shuffle(cases)
